@@ -300,6 +300,24 @@ def b_iff(V, st, args, kwargs, node):
     return SV(BOOL, truthy(args[0]) == truthy(args[1]))
 
 
+@_b('subset')
+def b_subset(V, st, args, kwargs, node):
+    a, b = args
+    if isinstance(a, SV) and isinstance(a.t, SetT) and isinstance(b, SV) and a.t == b.t:
+        x = z3.Const(fresh_name('sx'), sort_of(a.t.elem))
+        return SV(BOOL, z3.ForAll([x], z3.Implies(z3.Select(a.z, x), z3.Select(b.z, x))))
+    if isinstance(a, SV) and isinstance(a.t, SetT):
+        return SV(BOOL, z3.ForAll([z3.Const('sx', sort_of(a.t.elem))], True)) if False else \
+            _subset_any(V, a, b)
+    raise Unsupported('subset() of %r, %r' % (a, b))
+
+
+def _subset_any(V, a, b):
+    bz = pack(b, a.t)
+    x = z3.Const(fresh_name('sx'), sort_of(a.t.elem))
+    return SV(BOOL, z3.ForAll([x], z3.Implies(z3.Select(a.z, x), z3.Select(bz, x))))
+
+
 @_b('getattr')
 def b_getattr(V, st, args, kwargs, node):
     if len(args) >= 2 and isinstance(args[1], SV):
